@@ -1,6 +1,8 @@
 import ast
 import functools
 import inspect
+import keyword
+import re
 from collections.abc import Mapping, MutableMapping
 from typing import (
     TYPE_CHECKING,
@@ -139,37 +141,67 @@ def stateful_eval(
     if variables is not None:
         variables.update(get_expression_variables(code, env, aliases))
 
-    # Extract the nodes of the graph that correspond to stateful transforms
+    # Extract the nodes of the graph that correspond to stateful transforms.
+    # Their state is recorded under the call as written: names quoted with
+    # backticks are put back in place of their placeholders, so that calls on
+    # different columns whose placeholders coincide (`a b`, `a-b`) do not
+    # share one entry.
+    def state_key(node: ast.AST) -> str:
+        key = format_expr(node)
+        if aliases:
+            key = re.sub(
+                r"\b(?:"
+                + "|".join(sorted(map(re.escape, aliases), key=len, reverse=True))
+                + r")\b",
+                lambda match: (
+                    aliases[match.group(0)]
+                    if aliases[match.group(0)].isidentifier()
+                    and not keyword.iskeyword(aliases[match.group(0)])
+                    else f"`{aliases[match.group(0)]}`"
+                ),
+                key,
+            )
+        return key
+
     stateful_nodes: list[tuple[str, ast.Call]] = [
-        (format_expr(node), cast(ast.Call, node))
+        (state_key(node), cast(ast.Call, node))
         for node in ast.walk(code)
         if _is_stateful_transform(node, env)
     ]
 
     # Mutate stateful nodes to pass in state from a shared dictionary.
     for name, node in stateful_nodes:
-        name = name.replace('"', r'\\\\"')
         if name not in state:
             state[name] = {}
         node.keywords.append(
-            ast.keyword(
-                "_context",
-                ast.parse("__FORMULAIC_CONTEXT__", mode="eval").body,
-            )
+            ast.keyword("_context", ast.Name("__FORMULAIC_CONTEXT__", ast.Load()))
         )
         node.keywords.append(
             ast.keyword(
                 "_metadata",
-                ast.parse(f'__FORMULAIC_METADATA__.get("{name}")', mode="eval").body,
+                ast.Call(
+                    ast.Attribute(
+                        ast.Name("__FORMULAIC_METADATA__", ast.Load()),
+                        "get",
+                        ast.Load(),
+                    ),
+                    [ast.Constant(name)],
+                    [],
+                ),
             )
         )
         node.keywords.append(
             ast.keyword(
-                "_state", ast.parse(f'__FORMULAIC_STATE__["{name}"]', mode="eval").body
+                "_state",
+                ast.Subscript(
+                    ast.Name("__FORMULAIC_STATE__", ast.Load()),
+                    ast.Constant(name),
+                    ast.Load(),
+                ),
             )
         )
         node.keywords.append(
-            ast.keyword("_spec", ast.parse("__FORMULAIC_SPEC__", mode="eval").body)
+            ast.keyword("_spec", ast.Name("__FORMULAIC_SPEC__", ast.Load()))
         )
 
     # Compile mutated AST
